@@ -1483,3 +1483,33 @@ Theorem sole_holder_left_idle :
   | _ => False
   end.
 Proof. vm_compute. split; [reflexivity|]. eexists. repeat split. Qed.
+
+(* ---- the rotation timer's wrapper (timeout_change_conn_state = timer_tick) -------------------------------- *)
+(* while some peer has not reported both rates a tick only advances the round *)
+Theorem timer_tick_quiet m order pick : timer_rates m = None ->
+  exists m', timer_tick m order pick = Ok (m', None) /\ m_peers m' = m_peers m /\ m_status m' = m_status m /\
+             m_round m' = (m_round m + 1) mod MAX_OPTIMISTIC_ROUNDS.
+Proof. intros H. unfold timer_tick. rewrite H. eexists. repeat split. Qed.
+
+(* otherwise it is the rotation, on whatever order the peer map yields, with the optimistic pick used in round 0 only:
+   the slot bound holds afterwards *)
+Theorem timer_tick_bound m order pick m' fl :
+  NoDup (map fst (m_peers m)) -> Permutation (map fst order) (map fst (m_peers m)) ->
+  timer_tick m order pick = Ok (m', Some fl) ->
+  U (m_peers m') <= 10 + len pick /\ m_round m' = (m_round m + 1) mod MAX_OPTIMISTIC_ROUNDS /\ m_status m' = m_status m.
+Proof.
+  intros Hnd Hperm H. unfold timer_tick in H. destruct (timer_rates m) as [rs|]; [|discriminate].
+  set (r := (m_round m + 1) mod MAX_OPTIMISTIC_ROUNDS) in *.
+  set (m1 := mkmgr (m_status m) (m_peers m) (m_candidates m) r (m_extracted m) (m_plens m)) in *.
+  destruct (change_conn_state m1 order (if r =? 0 then pick else [])) as [[m2 fl2]| | |] eqn:E; cbn [bind] in H; try discriminate.
+  cbn [fst snd] in H. injection H as <- <-.
+  pose proof (rotation_bound m1 order (if r =? 0 then pick else []) m2 fl2 Hnd Hperm E) as B.
+  split; [|split].
+  - change MAX_UNCHOKED with 10 in B. destruct (r =? 0); [exact B|]. change (len (@nil addr)) with 0 in B. lia.
+  - unfold change_conn_state in E.
+    destruct (rotate_go _ _ _ _ _) as [[ps1 f1]| | |]; cbn [bind] in E; try discriminate.
+    destruct (set_optimistic _ _ _) as [[ps2 f2]| | |]; cbn [bind] in E; try discriminate. injection E as <- _. reflexivity.
+  - unfold change_conn_state in E.
+    destruct (rotate_go _ _ _ _ _) as [[ps1 f1]| | |]; cbn [bind] in E; try discriminate.
+    destruct (set_optimistic _ _ _) as [[ps2 f2]| | |]; cbn [bind] in E; try discriminate. injection E as <- _. reflexivity.
+Qed.
